@@ -236,11 +236,14 @@ class Channel(BaseChannel):
 
         :return:
         """
-        if self.exceptions:
-            exception = self.exceptions[0]
+        try:
             if self.is_open:
-                self.exceptions.pop(0)
-            raise exception
+                exception = self.exceptions.pop(0)
+            else:
+                exception = self.exceptions[0]
+        except IndexError:
+            return
+        raise exception
 
     def confirm_deliveries(self):
         """Set the channel to confirm that each message has been
